@@ -176,6 +176,8 @@ def crash_case(args):
         import re
         m = re.findall(r"(\w+(?:Error|Exception)[^\n]*)", txt)
         status, detail = "resume-failed", "resumed run exit %d: %s" % (rc, (m[-1] if m else txt[-200:])[:200])
+        if os.environ.get("VERIF_C07_KEEP"):
+            shutil.copytree(d, os.path.join(os.environ["VERIF_C07_KEEP"], "fail_%s_%d_%d" % (wname, wid, os.getpid())), dirs_exist_ok=True)
     else:
         t1 = out_tree(d)
         diffs = []
